@@ -25,6 +25,26 @@ Record tlayer := mkLayer {
   s_scale : Z              (* lattice quanta per SRS unit (only the KML DELTA = -1e-7 needs it) *)
 }.
 
+(* ---- config/loader.py CacheConfiguration.caches(): one (grid, extent, tile manager) per grid of the cache; the extent is
+   computed INSIDE the per-grid loop: the cache coverage if there is one, else the merged extent of the sources unless that
+   is the default (world) extent, else the bbox of THIS grid (map_extent_from_grid).  (Extents in the SRS of the grid:
+   TileLayer transforms md['extent'] to the grid SRS.) *)
+Definition cache_extent (coverage src_extent : option bbox) (g : grid) : bbox :=
+  match coverage with
+  | Some c => c
+  | None => match src_extent with
+            | Some e => e
+            | None => (gx0 g, gy0 g, gx1 g, gy1 g)
+            end
+  end.
+Definition cache_tile_layers (coverage src_extent : option bbox) (grids : list grid) : list (grid * bbox) :=
+  map (fun g => (g, cache_extent coverage src_extent g)) grids.
+
+(* ---- service/wmts.py meter_per_unit: METERS_PER_DEEGREE = 111319.4907932736 (the double, as an exact rational) for every
+   geographic SRS - whatever its ellipsoid -, 1 otherwise.  It is also the constant a WMTS client uses (OGC 07-057r7, 6.1). *)
+Definition meters_per_degree : Z * Z := (7649817157831731, 68719476736).
+Definition meter_per_unit (latlong : bool) : Z * Z := if latlong then meters_per_degree else (1, 1).
+
 (* ---- TileServiceGrid.__init__ *)
 Definition profile_of (s : tlayer) : profile :=
   match s_srs s, s_default_bbox s with
